@@ -337,6 +337,10 @@ fn safe_text() -> BoxedStrategy<String> {
 		1 => prop::sample::select(vec!["CN=device-17", "cn=x", "/CN=host", "O=Acme,CN=www", "CN=", "a=b", "x+y", "\"quoted\"", "a\\,b", "#0c0141", " lead", "trail ", "a,b;c", "<cn>"]).prop_map(|s| s.to_string()),
 		1 => "[a-zäöüßéñ中文 ]{1,10}",
 		1 => gen::text_for(StrKind::Utf8, 10),
+		// long values around the 64 / 128 / 256 marks (X.520 upper bounds, DER length forms) and beyond
+		1 => (prop::sample::select(vec![62usize, 63, 126, 127, 254, 255, 300, 1000]), 0usize..4, any::<bool>()).prop_map(|(n, d, wide)| {
+			(0..n + d).map(|i| if wide && i % 7 == 3 { 'é' } else { (b'a' + (i % 26) as u8) as char }).collect::<String>()
+		}),
 	]
 	.prop_map(|s| {
 		let s: String = s.chars().filter(|c| *c != '\0').collect();
